@@ -7,7 +7,9 @@ import ALV.Lemmas.C06Call
 import ALV.Lemmas.C06Gain
 import ALV.Lemmas.C06Algebra
 import ALV.Lemmas.C06TwoCalls
+import ALV.Lemmas.C06TwoCallsFull
 import ALV.Lemmas.C06Expr
+import ALV.Lemmas.C06Hub
 import ALV.Common.Audit
 
 set_option linter.unusedSectionVars false
@@ -478,16 +480,41 @@ theorem no_gain_raises (num rest : Terms (Coef K)) (mem : Mem K) (zero : K) (xs 
     callTV num rest mem zero xs = .error .zeroDivision :=
   callTV_no_gain num rest mem zero xs hcn hpos
 
-/-- PENDING (not proved): the two-call contract `specCallTwice` from the raw constructor pairs equals
-`callTwice` on the normalised object for EVERY history (also when a coefficient stream ended the
-first output).  Proved above: both are the same `tvspec … |xs1| …` when the first output was ended
-by its input (C06.10a', C06.10b), the spec side being `continued_eq_dropped`. -/
-def callTwice_eq_specCallTwice_PENDING : Prop :=
-  ∀ (numPairs denPairs : List (Int × Coef K)) (mem1 mem2 : Mem K) (zero1 zero2 : K) (xs1 xs2 : List K)
-    (n0 d0 : Terms (Coef K)), normalise (mkPoly numPairs) (mkPoly denPairs) = .ok (n0, d0) →
+/-- **C06.10e** (`callTwice_eq_specCallTwice`, the two-call contract for EVERY history): for every
+pair of raw constructor arguments and the filter object `__init__` makes of them, for every first
+and second memory / zero value / input, the code-shaped two-call model (`callTwice`: the object as the
+first call leaves it — iterators where the generated loop stopped, the failed last evaluation
+included — called again) shows exactly what the contract `specCallTwice` says on the raw pairs:
+a refused call is refused again with the same error; if the first output was ended by its input, the
+second call computes the difference equation with every coefficient stream `|xs1|` items further;
+if the first output was ended by a coefficient stream, that stream has ended and the second output is
+empty at once (constant gain: the empty iterator is the one the failed `next` left; Stream gain: the
+ended stream had exactly `|ys|` items). -/
+theorem callTwice_eq_specCallTwice (numPairs denPairs : List (Int × Coef K)) (mem1 mem2 : Mem K)
+    (zero1 zero2 : K) (xs1 xs2 : List K) (n0 d0 : Terms (Coef K))
+    (hn : normalise (mkPoly numPairs) (mkPoly denPairs) = .ok (n0, d0)) :
     ((callTwice n0 d0 mem1 zero1 xs1 mem2 zero2 xs2).1.map Prod.fst,
      (callTwice n0 d0 mem1 zero1 xs1 mem2 zero2 xs2).2.map Prod.fst)
-      = specCallTwice numPairs denPairs mem1 zero1 xs1 mem2 zero2 xs2
+      = specCallTwice numPairs denPairs mem1 zero1 xs1 mem2 zero2 xs2 :=
+  callTwice_eq_specCallTwice_full numPairs denPairs mem1 mem2 zero1 zero2 xs1 xs2 n0 d0 hn
+
+/-- **C06.10f** (`second_call_after_ended_stream`): on the object — any normalised causal filter
+object, any gain: when a coefficient stream ended the first output, the second output is empty. -/
+theorem second_call_after_ended_stream (num den : Terms (Coef K)) (mem1 mem2 : Mem K) (zero1 zero2 : K)
+    (xs1 xs2 : List K)
+    (hnum : List.Pairwise (fun x y : Int × Coef K => x.1 < y.1) num)
+    (hden : List.Pairwise (fun x y : Int × Coef K => x.1 < y.1) den)
+    (hstored : ∀ kv ∈ num ++ den, kv.2 ≠ Coef.const 0) (hc : ∀ kv ∈ num ++ den, 0 ≤ kv.1)
+    (h0 : coefAt den 0 ≠ Coef.const 0) (ys : List K) (its : Its K)
+    (hr : callTV num den mem1 zero1 xs1 = .ok (ys, its)) (hne : ys.length ≠ xs1.length) :
+    (callTwice num den mem1 zero1 xs1 mem2 zero2 xs2).2.map Prod.fst = .ok [] := by
+  cases h : coefAt den 0 with
+  | const g =>
+    exact callTwice_const_short num den mem1 mem2 zero1 zero2 xs1 xs2 g ⟨hnum, hden, hstored, hc, h0⟩ h
+      ys its hr hne
+  | strm gs =>
+    exact callTwice_gain_short num den mem1 mem2 zero1 zero2 xs1 xs2 gs ⟨hnum, hden, hstored, hc, h0⟩ h
+      ys its hr hne
 
 /-! ### C06.6 filter arithmetic acts on coefficient sequences element by element -/
 
@@ -704,6 +731,146 @@ theorem expr_reads_once (t : ALV.C06.Tree K) (f : ZFT K) (e : evalTree t = .ok (
                           (dense f.den).tail.map (fun c => c.items.drop k)⟩) :=
   callTV_const_take f.num f.den mem zero xs g hc h0 hg k ys its hr hk
 
+/-! ### C06.12 the tee / thub bookkeeping: sources, hubs, copies (`ALV.C06.Hub`)
+
+The machine: a leaf Stream wraps a SOURCE iterator; `thub(stream, n)` / `Stream.copy()` is a tee group
+whose copies share a buffer of the items pulled from upstream so far (a copy that is behind reads
+the buffer, the one that is ahead pulls upstream once); `Poly.__mul__`, `Poly.__truediv__` and the
+Stream-gain rewriting allocate the groups (`mulHub`, `divHub`, `gainHub`); the generated loop calls
+`next` on every coefficient iterator once per output (`round`). -/
+section hub
+open ALV.C06.Hub
+
+/-- **C06.12a** (`hub_advances_max_over_copies`): for EVERY iterator (any nesting of hubs and maps, any
+order of the calls, failed calls included) one `next` keeps, for every tee group, the number of
+upstream pulls (= buffer length) equal to the MAXIMUM of the positions of its copies; and for a source
+wrapped by one hub, the number of pulls of the SOURCE equal to that buffer length, the buffer being
+exactly the items pulled so far. -/
+theorem hub_advances_max_over_copies (srcs : Nat → Src K) (k g : Nat) (t : It K) (st : St K)
+    (wf : t.WF) (ow : t.Owned k g) (hm : GroupMax st g) (ho : OwnedInv srcs st k g) :
+    GroupMax (next srcs t st).1 g ∧ OwnedInv srcs (next srcs t st).1 k g
+    ∧ ((next srcs t st).1.buf g).length = (next srcs t st).1.pulls k :=
+  ⟨next_groupMax srcs t g st wf hm, next_owned srcs k g t st wf ow ho,
+    ownedInv_len (next_owned srcs k g t st wf ow ho)⟩
+
+/-- what the two invariants say: the source has been pulled exactly max-over-copies times -/
+theorem hub_pulls_eq_max (srcs : Nat → Src K) (k g : Nat) (st : St K) (hm : GroupMax st g)
+    (ho : OwnedInv srcs st k g) :
+    (∀ i, st.pos g i ≤ st.pulls k) ∧ (st.pulls k = 0 ∨ ∃ i, st.pos g i = st.pulls k) := by
+  have h := ownedInv_len ho
+  rw [← h]; exact hm
+
+/-- **C06.12b** (`hub_copy_is_real_copy`): every copy of a hub over a source delivers the source's
+items in order from its OWN position — whatever the other copies have read — and ends exactly when it
+has delivered all of them (with the source's own exception if it raises). -/
+theorem hub_copy_is_real_copy (srcs : Nat → Src K) (k g i : Nat) (st : St K) (ho : OwnedInv srcs st k g)
+    (hm : GroupMax st g) :
+    (next srcs (It.tee g i (It.src k)) st).2
+      = match (srcs k).items[st.pos g i]? with
+        | some v => Res.ok v
+        | none => if (srcs k).raises then Res.raise else Res.stop :=
+  next_copy_value srcs k g i st ho hm
+
+/-- … in particular a finite `itertools.repeat(c, n)` behind a hub gives `n` items to EVERY copy (not
+`n / m`: the copies never share the countdown) -/
+theorem hub_finite_repeat (srcs : Nat → Src K) (k g i n : Nat) (c : K) (st : St K)
+    (hs : srcs k = ⟨List.replicate n c, false⟩) (ho : OwnedInv srcs st k g) (hm : GroupMax st g) :
+    (next srcs (It.tee g i (It.src k)) st).2 = if st.pos g i < n then Res.ok c else Res.stop := by
+  rw [next_copy_value srcs k g i st ho hm, hs]
+  by_cases h : st.pos g i < n
+  · simp [h, List.getElem?_replicate]
+  · simp [h, List.getElem?_replicate]
+
+/-- **C06.12c** (`hub_reads_once_per_sample`): the coefficients handed to the loop are built over a hub
+that wraps source `k`, each copy of the hub used at most once among them (and at least one): one
+successful evaluation of the generated expression advances the SOURCE by exactly one item, however
+many copies the algebra made; and the hypotheses hold again afterwards. -/
+theorem hub_reads_once_per_sample (srcs : Nat → Src K) (k g : Nat) (cs : List (HC K)) (st st' : St K)
+    (vs : List K) (wf : ∀ c ∈ cs, c.WF) (fl : ∀ c ∈ cs, c.Flat) (ow : ∀ c ∈ cs, c.Owned k g)
+    (hm : GroupMax st g) (ho : OwnedInv srcs st k g)
+    (once : ∀ i, occR g i cs ≤ 1) (used : ∃ i, occR g i cs = 1)
+    (sync : ∀ i, occR g i cs = 1 → st.pos g i = st.pulls k)
+    (hr : round srcs cs st = (st', .ok vs)) :
+    st'.pulls k = st.pulls k + 1 ∧ GroupMax st' g ∧ OwnedInv srcs st' k g
+      ∧ (∀ i, occR g i cs = 1 → st'.pos g i = st'.pulls k) :=
+  round_reads_once srcs k g cs st st' vs wf fl ow hm ho once used sync hr
+
+/-- **C06.12d** (`hub_reads_once`): from the state `filt(x)` leaves (nothing read), after `n` outputs
+the source has been pulled exactly `n` times. -/
+theorem hub_reads_once (srcs : Nat → Src K) (k g : Nat) (cs : List (HC K))
+    (wf : ∀ c ∈ cs, c.WF) (fl : ∀ c ∈ cs, c.Flat) (ow : ∀ c ∈ cs, c.Owned k g)
+    (once : ∀ i, occR g i cs ≤ 1) (used : ∃ i, occR g i cs = 1) (n : Nat) (st' : St K)
+    (h : roundsOk srcs cs n St.init st') : st'.pulls k = n := by
+  have := rounds_reads_once srcs k g cs wf fl ow once used n St.init st' (groupMax_init g)
+    (ownedInv_init srcs k g) (fun _ _ => rfl) h
+  simpa [St.init] using this
+
+/-- **C06.12e** (`shared_stream_object`): the SAME Stream object stored directly in `m` coefficients
+(no hub — the assumption "every Stream object is used once" broken): `m` pulls per output sample. -/
+theorem shared_stream_object (srcs : Nat → Src K) (k : Nat) (cs : List (HC K)) (nh : ∀ c ∈ cs, c.NoHub k)
+    (n : Nat) (st' : St K) (h : roundsOk srcs cs n St.init st') : st'.pulls k = n * dirR k cs := by
+  have := rounds_shared_direct srcs k cs nh n St.init st' h
+  simpa [St.init] using this
+
+/-- **C06.12f** (`call_reads_nothing`): when `filt(x)` has returned — polynomials built, Stream-gain
+rewriting done, generator created — every source has been pulled 0 times, the one behind the leading
+denominator coefficient included: the first read happens at the first output request. -/
+theorem call_reads_nothing (srcs : Nat → Src K) (nsrc : Nat) (num den : PE K) (zero : K) (xs : List K) :
+    (callH srcs nsrc num den zero xs).atCall = List.replicate nsrc 0 :=
+  callH_atCall srcs nsrc num den zero xs
+
+/-- **C06.12g** (`hub_loop_step`, raising coefficient included): the loop yields one output per
+successful evaluation and records the pulls of that moment; an evaluation in which a coefficient
+iterator ends (`StopIteration`) or RAISES ends the loop without an output, with that flag. -/
+theorem hub_loop_step (srcs : Nat → Src K) (nsrc : Nat) (b as : List (HC K)) (a0 zero x : K)
+    (xs hx hy : List K) (st : St K) :
+    (∀ st1 vs, round srcs (b ++ as) st = (st1, .ok vs) →
+      ∃ y, loopH srcs nsrc b as a0 zero (x :: xs) hx hy st
+        = (y :: (loopH srcs nsrc b as a0 zero xs (x :: hx) (y :: hy) st1).1,
+           (List.range nsrc).map st1.pulls :: (loopH srcs nsrc b as a0 zero xs (x :: hx) (y :: hy) st1).2.1,
+           (loopH srcs nsrc b as a0 zero xs (x :: hx) (y :: hy) st1).2.2.1,
+           (loopH srcs nsrc b as a0 zero xs (x :: hx) (y :: hy) st1).2.2.2))
+    ∧ (∀ st1, round srcs (b ++ as) st = (st1, .stop) →
+        loopH srcs nsrc b as a0 zero (x :: xs) hx hy st = ([], [], st1, .stop))
+    ∧ (∀ st1, round srcs (b ++ as) st = (st1, .raise) →
+        loopH srcs nsrc b as a0 zero (x :: xs) hx hy st = ([], [], st1, .raise)) :=
+  loopH_step srcs nsrc b as a0 zero x xs hx hy st
+
+-- PENDING
+/-- PENDING (not proved): reads-once for NESTED hubs, on the whole call.  For every filter whose
+polynomials are built by `Poly` arithmetic (`*`, `/ Stream`) from leaf Streams, every Stream object
+written once, any depth — products of products put a hub over a product of hub copies, the Stream-gain
+rewriting puts `inv_gain` under a copy of a copy — after output `j + 1` every source has been pulled
+exactly `j + 1` times (0 if no coefficient of the filter contains it).  Proved: the invariant "buffer
+length = max over copies" for any nesting (C06.12a), and the full statement for hubs that sit directly
+on their source (C06.12c/d); measured on the real code for nested shapes by the entry hub (where this
+very statement is also evaluated on every generated input). -/
+def hub_nested_reads_once_PENDING : Prop :=
+  ∀ (srcs : Nat → Src K) (nsrc : Nat) (num den : PE K) (zero : K) (xs : List K),
+    num.Leafy → den.Leafy → (num.leafs ++ den.leafs).Nodup →
+    ∀ (j : Nat) (row : List Nat), (callH srcs nsrc num den zero xs).trace[j]? = some row →
+      ∀ (k v : Nat), row[k]? = some v → v = 0 ∨ v = j + 1
+
+/-- non-vacuity: `Stream(repeat(1/2, 3)) * (1 + z^-1)` — `Poly.__mul__` makes a hub with two copies -/
+example : (mulHub [((0 : Int), HC.s (It.src 0))] [(0, HC.c (1 : Rat)), (1, HC.c 1)] 0).1
+    = [(0, HC.s (.br .mul (.tee 0 0 (.src 0)) 1)), (1, HC.s (.br .mul (.tee 0 1 (.src 0)) 1))] := by
+  decide +kernel
+example : (callH (fun _ => ⟨[1/2, 1/2, 1/2], false⟩) 1
+      (.mul (.poly [((0 : Int), HC.s (It.src 0))]) (.poly [(0, HC.c (1 : Rat)), (1, HC.c 1)]))
+      (.poly [(0, HC.c 1)]) 0 [1, 2, 3, 4, 5]).out = [1/2, 3/2, 5/2] := by decide +kernel
+example : (callH (fun _ => ⟨[1/2, 1/2, 1/2], false⟩) 1
+      (.mul (.poly [((0 : Int), HC.s (It.src 0))]) (.poly [(0, HC.c (1 : Rat)), (1, HC.c 1)]))
+      (.poly [(0, HC.c 1)]) 0 [1, 2, 3, 4, 5]).trace = [[1], [2], [3]] := by decide +kernel
+example := hub_reads_once (fun _ => (⟨[1/2, 1/2, 1/2], false⟩ : Src ℚ)) 0 0
+  [HC.s (.br .mul (.tee 0 0 (.src 0)) 1), HC.s (.br .mul (.tee 0 1 (.src 0)) 1)]
+  (by intro c hc; simp at hc; rcases hc with rfl | rfl <;> simp [HC.WF, It.WF, It.groups])
+  (by intro c hc; simp at hc; rcases hc with rfl | rfl <;> simp [HC.Flat, It.Flat, It.groups])
+  (by intro c hc; simp at hc; rcases hc with rfl | rfl <;> simp [HC.Owned, It.Owned])
+  (by intro i; simp only [occR, HC.occ, It.occ]; split <;> split <;> omega)
+  ⟨0, by simp [occR, HC.occ, It.occ]⟩
+
+end hub
+
 /-! ### non-vacuity -/
 
 /-- D13's witness: `(Stream([1,2,3])*z**-1 + 1)([1]*10, zero=0)` gives 1, 3, 4 and ends -/
@@ -852,6 +1019,21 @@ example : specCallTwice [((0 : Int), Coef.const (1 : Rat)), (1, Coef.const 1)]
       [(0, Coef.strm [2, 3, 4, 5, 6, 7, 8, 9]), (1, Coef.strm [1, 1, 1, 1, 1, 1, 1, 1])]
       Mem.none 0 [1, 1, 1] Mem.none 0 [1, 1, 1]
     = (.ok [1/2, 1/2, 3/8], .ok [1/5, 3/10, 17/70]) := by decide +kernel
+/-- C06.10e/f: `(1 + Stream(1,2) z^-1) / 2` called on four samples (the stream ends the output after
+two), then again: empty — model and contract -/
+example : ((callTwice [((0 : Int), Coef.const (1 : Rat)), (1, Coef.strm [1, 2])] [(0, Coef.const 2)]
+      Mem.none 0 [1, 1, 1, 1] Mem.none 0 [1, 1]).1.map Prod.fst,
+     (callTwice [((0 : Int), Coef.const (1 : Rat)), (1, Coef.strm [1, 2])] [(0, Coef.const 2)]
+      Mem.none 0 [1, 1, 1, 1] Mem.none 0 [1, 1]).2.map Prod.fst)
+    = (.ok [1/2, 3/2], .ok []) := by decide +kernel
+example : specCallTwice [((0 : Int), Coef.const (1 : Rat)), (1, Coef.strm [1, 2])] [(0, Coef.const 2)]
+      Mem.none 0 [1, 1, 1, 1] Mem.none 0 [1, 1] = (.ok [1/2, 3/2], .ok []) := by decide +kernel
+example := callTwice_eq_specCallTwice [((0 : Int), Coef.const (1 : ℚ)), (1, Coef.strm [1, 2])] [(0, Coef.const 2)]
+  Mem.none Mem.none 0 0 [1, 1, 1, 1] [1, 1] [((0 : Int), Coef.const 1), (1, Coef.strm [1, 2])] [(0, Coef.const 2)]
+  (by decide +kernel)
+example := second_call_after_ended_stream [((0 : Int), Coef.const (1 : ℚ)), (1, Coef.strm [1, 2])] [(0, Coef.const 2)]
+  Mem.none Mem.none 0 0 [1, 1, 1, 1] [1, 1] (by simp) (by simp) (by simp) (by simp) (by simp [coefAt])
+  [1/2, 3/2] ⟨[[], []], []⟩ (by decide +kernel) (by simp)
 /-- C06.10c / d: a non-causal object refuses twice; an object whose gain was deleted raises -/
 example := refused_call_leaves_no_trace [((-1 : Int), Coef.strm [(1 : ℚ)])] [(0, Coef.const 1)] Mem.none Mem.none
   0 0 [1] [1] .valueError (noncausal _ _ _ _ _ ⟨((-1 : Int), Coef.strm [1]), by simp, by simp⟩)
